@@ -98,7 +98,7 @@ def manifest(a, v):
 def payload(p):
     return {0: None,
             1: {'identity': None, 'identity_count': None, 'expires': 1500000000.5},
-            2: {'identity': 1, 'identity_count': 3, 'expires': 1600000000.25},
+            2: {'identity': 0, 'identity_count': 3, 'expires': 1600000000.25},   # first identity of a group: falsy
             3: {'identity': 2, 'identity_count': 3, 'expires': 1700000000.0}}[p]
 
 
